@@ -81,16 +81,21 @@ let check_str abc fields obs =
   let expand o = if o = "=" then (match !first with Some f -> f | None -> "?") else (if !first = None then first := Some o; o) in
   (* memoised model outcomes *)
   let raw_memo = Hashtbl.create 8 and into_memo = Hashtbl.create 8 in
+  (* texts longer than 3000 bytes: the list-based kernel model is quadratic; only the
+     property checker (linear) is run, the model outcome is taken to be the specified one
+     (Coq: C05_every_pipeline / C05_encode_into) *)
+  let big = len > 3000 in
   let model_raw p = match Hashtbl.find_opt raw_memo p with
     | Some r -> r
-    | None -> let r = show_outcome (pipeline_encode_raw p abc junk s) in Hashtbl.add raw_memo p r; r in
+    | None -> let r = if big then spec_s else show_outcome (pipeline_encode_raw p abc junk s) in Hashtbl.add raw_memo p r; r in
   let model_into p = match Hashtbl.find_opt into_memo p with
     | Some r -> r
     | None ->
         let dlen = max 0 (len + dl) in
         let dst = List.init dlen (fun _ -> a_default abc) in
-        let (buf, st) = pipeline_encode_into p abc s dst in
-        let r = show_outcome (match st with Ok _ -> Ok buf | Err e -> Err e | Panic q -> Panic q | OutOfFuel -> OutOfFuel) in
+        let r = if big then (if dl = 0 then spec_s else "panic") else begin
+          let (buf, st) = pipeline_encode_into p abc s dst in
+          show_outcome (match st with Ok _ -> Ok buf | Err e -> Err e | Panic q -> Panic q | OutOfFuel -> OutOfFuel) end in
         Hashtbl.add into_memo p r; r in
   let prop_check name o =
     (* the property: outcome = specified outcome (extracted checker) *)
@@ -140,7 +145,7 @@ let check_str abc fields obs =
           let last = name.[String.length name - 1] in
           (match arm_of last with
            | Some a ->
-               let m = show_outcome (encoded_sequence_encode a abc junk s) in
+               let m = if big then spec_s else show_outcome (encoded_sequence_encode a abc junk s) in
                if o <> m then set_diff (Printf.sprintf "%s outcome %s model %s len=%d" name (short o) (short m) len)
            | None -> ())
     end) toks;
@@ -161,11 +166,12 @@ let check_win abc fields obs =
   let len = List.length text in
   let m = max 0 (len + dl) in
   let range k = match String.split_on_char ':' (get k "0") with
-    | [a] -> let a = min 31 (int_of_string a) in (a, a)
-    | [a; b] -> let a = min 31 (int_of_string a) in (a, max a (min 31 (int_of_string b)))
+    | [a] -> let a = min 63 (int_of_string a) in (a, a)
+    | [a; b] -> let a = min 63 (int_of_string a) in (a, max a (min 63 (int_of_string b)))
     | _ -> failwith ("bad range " ^ k) in
   let (so_lo, so_hi) = range "so" and (do_lo, do_hi) = range "do" in
   let nso = so_hi - so_lo + 1 and ndo = do_hi - do_lo + 1 in
+  let nraw = if get "raw" "1" = "0" then 0 else nso in
   let spec = encode_spec abc s in
   let spec_s = show_outcome spec in
   let verdict = ref "OK" in
@@ -188,7 +194,7 @@ let check_win abc fields obs =
   List.iter (fun (name, v) ->
     let kind = if String.length name > 2 then String.sub name 0 2 else "" in
     let pn = if String.length name > 2 then String.sub name 2 (String.length name - 2) else name in
-    if v = "unsupported" then begin bump ("w." ^ pn) (nso * ndo); bump ("r." ^ pn) nso end
+    if v = "unsupported" then begin bump ("w." ^ pn) (nso * ndo); bump ("r." ^ pn) nraw end
     else match String.split_on_char '@' v, pipeline_of pn with
       | [o0; cnt; at], Some p when kind = "w." || kind = "r." ->
           let o1 = expand o0 in
@@ -210,7 +216,7 @@ let check_win abc fields obs =
             (match guard with
              | Some g ->
                  if guards_unchanged mem r (nat_of_int d) (nat_of_int m) then
-                   set_diff (Printf.sprintf "%s element %s (relative to the destination window of %d) was overwritten" nm g m)
+                   set_diff (Printf.sprintf "%s element %s (index relative to the start of the destination window of %d elements) was overwritten" nm (String.sub g 1 (String.length g - 1)) m)
              | None ->
                  if not (guards_unchanged mem r (nat_of_int d) (nat_of_int m)) then
                    set_diff (Printf.sprintf "%s model overwrites a guard element" nm))
@@ -227,7 +233,7 @@ let check_win abc fields obs =
   List.iter (fun pn ->
     let c k = try Hashtbl.find counts k with Not_found -> 0 in
     if c ("w." ^ pn) <> nso * ndo then set_diff (Printf.sprintf "w.%s covers %d of %d offset pairs" pn (c ("w." ^ pn)) (nso * ndo));
-    if c ("r." ^ pn) <> nso then set_diff (Printf.sprintf "r.%s covers %d of %d offsets" pn (c ("r." ^ pn)) nso))
+    if c ("r." ^ pn) <> nraw then set_diff (Printf.sprintf "r.%s covers %d of %d offsets" pn (c ("r." ^ pn)) nraw))
     ["gen"; "sse2"; "avx2"; "dG"; "dS"; "dA"];
   !verdict
 
